@@ -14,8 +14,9 @@ E4 exact executor, complete enumeration (exhaustive: true):
 * the compiled dispatcher is called at 3 float eccentricities (thorough: also on a float array) and must agree with the
   exact polynomial evaluated at the same e;
 * `mode_calc_helper.eccentricity_functions_lookup[N][max_l]` (every key present; expected set must exist) is called
-  compiled at the same eccentricities and must return exactly the dict {l: per-l table} for l = 2..max_l, key by key,
-  value by value (==).
+  compiled at the same eccentricities and must return exactly the dict {l: per-l table} for l = 2..max_l, key by key;
+  values are compared with the exact polynomial of the per-l table (1e-12) and, in the thorough tier, bit for bit with
+  the compiled per-l dispatcher.
 """
 import re
 
@@ -254,34 +255,61 @@ def _run_case(case):
 
     if kind == 'lookup':
         import math
+        from fractions import Fraction as Fr
+        from mc.exact import Series, as_series
+        from mc.refmodels import hansen
         from TidalPy.tides import eccentricity_funcs as ef
         from TidalPy.tides.modes import mode_calc_helper as mh
         N, L = case['N'], case['max_l']
         fn = mh.eccentricity_functions_lookup[N][L]
         nval = 0
         obs = []
+        # the per-l tables as exact series from their Python source lines (verified coefficient by coefficient by the
+        # 'table' cases); thorough additionally requires bit-for-bit equality with the compiled per-l dispatchers
+        exact = {}
+        for l in range(2, L + 1):
+            f = getattr(ef, f'eccentricity_funcs_l{l}_trunc{N}', None)
+            if f is None:
+                continue                      # reported by discovery
+            tab = getattr(f, 'py_func', f)(Series.var(ORDER))
+            exact[l] = {(int(p), int(q)): as_series(tab[p][q], ORDER) for p in tab for q in tab[p]}
         try:
             for e in es:
                 res = fn(float(e))
+                fe = Fr(e)
                 keys = sorted(int(k) for k in res)
                 if keys != list(range(2, L + 1)):
                     viol.append(('C08/lookup/degree-keys', dict(N=N, max_l=L, e=e, keys=keys)))
                     break
                 for l in keys:
-                    per = getattr(ef, f'eccentricity_funcs_l{l}_trunc{N}')(float(e))
+                    if l not in exact:
+                        continue
                     ka = {(int(p), int(q)) for p in res[l] for q in res[l][p]}
-                    kb = {(int(p), int(q)) for p in per for q in per[p]}
+                    kb = set(exact[l])
                     if ka != kb:
                         viol.append(('C08/lookup/mode-keys', dict(N=N, max_l=L, l=l, e=e, only_lookup=sorted(ka - kb)[:5],
                                                                   only_table=sorted(kb - ka)[:5])))
                         continue
+                    per = getattr(ef, f'eccentricity_funcs_l{l}_trunc{N}')(float(e)) if case.get('exact') else None
                     chk = 0.0
                     for (p, q) in sorted(ka):
-                        a, b = float(res[l][p][q]), float(per[p][q])
+                        a = float(res[l][p][q])
+                        s = exact[l][(p, q)]
+                        if l - 2 * p + q == 0 and any(c != 0 for c in s.c[N + 1:]):
+                            want = scale = float(hansen.closed_form_k0_value(l, p, fe))
+                        else:
+                            terms = [c * fe ** k for k, c in enumerate(s.c) if c != 0]
+                            want = float(sum(terms))
+                            scale = float(sum(abs(t) for t in terms))
                         nval += 1
                         chk += a
-                        if not (a == b and math.isfinite(a)):
-                            viol.append(('C08/lookup/value', dict(N=N, max_l=L, l=l, p=p, q=q, e=e, lookup=a, table=b)))
+                        if not (math.isfinite(a) and abs(a - want) <= VAL_TOL * scale + 1e-300):
+                            viol.append(('C08/lookup/value', dict(N=N, max_l=L, l=l, p=p, q=q, e=e, lookup=a, table=want,
+                                                                  vs='exact polynomial of the per-l table')))
+                            break
+                        if per is not None and not a == float(per[p][q]):
+                            viol.append(('C08/lookup/value', dict(N=N, max_l=L, l=l, p=p, q=q, e=e, lookup=a,
+                                                                  table=float(per[p][q]), vs='compiled per-l table')))
                             break
                     obs.append((l, round(chk, 9)))
         except Exception as ex:
@@ -305,16 +333,21 @@ def run(ctx):
                        rule='discovery of every eccentricity_funcs_l{l}_trunc{N} / lookup key (expected set must exist)',
                        exhaustive=True)[0]
     pairs = sorted(set(tuple(x) for x in disc['found']) | set(EXPECTED), key=lambda x: (-x[0] * x[1], x))
-    cases = [dict(kind='table', l=l, N=N, es=es, array=ctx.thorough) for (l, N) in pairs]
+    # two phases: the per-l table functions first (each is compiled once and lands in numba's on-disk cache), then the
+    # multi-degree lookups, whose compilation re-uses the cached callees (cold critical path ~5 s + ~4 s instead of ~35 s)
     lk = sorted(set(tuple(x) for x in disc['lookups']), key=lambda x: (-x[0] * x[1], x))
-    cases += [dict(kind='lookup', N=N, max_l=L, es=es) for (N, L) in lk]
-    cases.sort(key=lambda c: -(c['N'] * (c.get('l') or c.get('max_l')) * (3 if c['kind'] == 'lookup' else 1)))
-    res = run_lattice(ctx, 'mc.props.C08:run_case', cases, chunk=1,
-                      rule='every shipped (l, N) table function x every (p, q) present x every Taylor coefficient up to e^N '
-                           '(entries with terms above e^N: up to e^30) vs exact rational G_lpq^2; every absent (p, q), '
-                           'p in 0..l, |q| <= N/2+3; compiled dispatcher at 3 eccentricities; every lookup[N][max_l] vs the '
-                           'per-l tables key by key; distinct = distinct coefficient tables / distinct lookup results',
-                      exhaustive=True)
+    cases1 = [dict(kind='table', l=l, N=N, es=es, array=ctx.thorough) for (l, N) in pairs]
+    cases2 = [dict(kind='lookup', N=N, max_l=L, es=es, exact=ctx.thorough) for (N, L) in lk]
+    res1 = run_lattice(ctx, 'mc.props.C08:run_case', cases1, chunk=1,
+                       rule='every shipped (l, N) table function x every (p, q) present x every Taylor coefficient up to e^N '
+                            '(entries with terms above e^N: up to e^30) vs exact rational G_lpq^2; every absent (p, q), '
+                            'p in 0..l, |q| <= N/2+3; compiled dispatcher at 3 eccentricities; distinct = distinct '
+                            'coefficient tables',
+                       exhaustive=True)
+    res2 = run_lattice(ctx, 'mc.props.C08:run_case', cases2, chunk=1,
+                       rule='every lookup[N][max_l] (compiled) vs the per-l tables key by key; distinct = distinct lookup results',
+                       exhaustive=True)
+    cases, res = cases1 + cases2, res1 + res2
     import os
     if os.environ.get('VERIF_TIMING'):
         for c, r in sorted(zip(cases, res), key=lambda cr: -cr[1]['t'])[:25]:
